@@ -117,7 +117,9 @@ def run(chk):
     chk.cov["rule"] = ("every consecutive-statement region of the body of seeded MiniF routines (as C12), 30% of the "
                        "routines with an excluded node type (print CodeBlock / Return) at the top level, 20% with expression / "
                        "FORALL CodeBlocks, DO WHILE loops (8% of statements), 30% with structure members (parents added to "
-                       "the clauses for the deep copy), 20% with calls of unknown intent (clauses only, not executed), "
+                       "the clauses for the deep copy), 20% with calls of unknown intent and 25% module routines calling pure / "
+                       "impure subroutines of the same module with keyword actuals (callee inlined: clauses AND execution), "
+                       "element write directly followed by a call passing the same array, the systematic R.call_matrix() family, "
                        "dependent loop bounds, same-element write-then-read pairs, some regions retried "
                        "with an `enter data` directive in the routine, one empty region; non-trivial = accepted region "
                        "touching >=2 arrays, or a refusal; distinct by (source, region, enter_data)")
